@@ -166,3 +166,14 @@ level("C04",
       "kwargs-dict state used to discard infeasible paths.",
       "sibling cross-check by path enumeration of each field_data implementation against a canonical table",
       "DESIGN.md §4 C04")
+
+level("C12",
+      "Static decision for all model graphs of: each model's structure entry exists before placement starts, is never "
+      "replaced, and is inserted into exactly one list on every non-raising path of both layout loops; one generator and "
+      "one class text per entry with nested class texts forwarded by every framework and emitted by the template; "
+      "nesting only from single-parent / single-root paths; the flat layout never nests.",
+      "Decided: LAY-1, LAY-2, LAY-3. NOT decided: class-by-class equality of the two layouts, 'root first', "
+      "reachability of every placed entry from the root list for non-tree graphs. Trusted: path enumeration of the "
+      "loop bodies (try/except modelled as alternative paths), recognition of list placement calls.",
+      "exactly-once counting over enumerated paths of the placement loops; forwarding agreement of generate() overrides",
+      "DESIGN.md §4 C12")
